@@ -75,6 +75,9 @@ func StarvingMutex.Unlock
   requires f != nil && unlocked(f.mutex)
   modifies monitor(f)
   panics-when f.readersActive > 0
+  -- ... and it DOES panic then: an Unlock while readers hold the lock is never let through (ghost: the normal release is
+  -- reached only with no reader active)
+  ghost before unlock: assert f.readersActive == 0
   ghost before unlock: f.wg = 0
   ghost before unlock: owe readerCond if f.pendingWriters == 0
   ghost before unlock: owe writerCond if f.pendingWriters > 0
